@@ -10,7 +10,7 @@ import (
 )
 
 func isPointer(t types.Type) bool {
-	_, ok := types.Unalias(t).Underlying().(*types.Pointer)
+	_, ok := under(t).(*types.Pointer)
 	return ok
 }
 
@@ -78,7 +78,7 @@ func (x *Exec) instr(fr *Frame, in ssa.Instruction, st *State, reach Term) *Stat
 	case *ssa.Index:
 		base := x.val(fr, t.X)
 		idx := x.val(fr, t.Index).S
-		switch bt := types.Unalias(base.T).Underlying().(type) {
+		switch bt := under(base.T).(type) {
 		case *types.Array:
 			key, srt := x.elemKey(bt.Elem())
 			x.heapBase(key, srt)
@@ -184,7 +184,7 @@ func (x *Exec) nilCheck(base Val, reach Term, pos token.Pos) {
 
 func (x *Exec) alloc(fr *Frame, a *ssa.Alloc, st *State) {
 	et := a.Type().(*types.Pointer).Elem()
-	if at, ok := types.Unalias(et).Underlying().(*types.Array); ok {
+	if at, ok := under(et).(*types.Array); ok {
 		reg := x.freshRef()
 		key, srt := x.elemKey(at.Elem())
 		h := x.heapGet(st, key, srt)
@@ -225,7 +225,7 @@ func (x *Exec) indexAddr(fr *Frame, t *ssa.IndexAddr, st *State, reach Term) Val
 	base := x.val(fr, t.X)
 	idx := x.val(fr, t.Index).S
 	et := t.Type().(*types.Pointer).Elem()
-	switch bt := types.Unalias(base.T).Underlying().(type) {
+	switch bt := under(base.T).(type) {
 	case *types.Slice:
 		key, srt := x.elemKey(bt.Elem())
 		x.heapBase(key, srt)
@@ -233,7 +233,7 @@ func (x *Exec) indexAddr(fr *Frame, t *ssa.IndexAddr, st *State, reach Term) Val
 		l := &Loc{Kind: lElem, Key: key, Region: app("s_reg", base.S), Index: app("sidx", base.S, idx), RootT: et, T: et}
 		return Val{T: t.Type(), L: l}
 	case *types.Pointer:
-		at, ok := types.Unalias(bt.Elem()).Underlying().(*types.Array)
+		at, ok := under(bt.Elem()).(*types.Array)
 		if !ok || base.L == nil {
 			x.fail("IndexAddr on %s", base.T)
 		}
@@ -251,7 +251,7 @@ func (x *Exec) ptrLoc(p Val) *Loc {
 	if p.L != nil {
 		return p.L
 	}
-	pt, ok := types.Unalias(p.T).Underlying().(*types.Pointer)
+	pt, ok := under(p.T).(*types.Pointer)
 	if !ok {
 		x.fail("deref of non-pointer %s", p.T)
 	}
@@ -272,7 +272,7 @@ func (x *Exec) loadPtr(st *State, p Val) Val {
 		return v
 	}
 	// struct through heap ref: assemble from field arrays
-	pt := types.Unalias(p.T).Underlying().(*types.Pointer)
+	pt := under(p.T).(*types.Pointer)
 	si := x.so.structOf(pt.Elem())
 	var args []string
 	for i := range si.Fields {
@@ -292,7 +292,7 @@ func (x *Exec) assumeRange(v Val) {
 	if rf := rangeFact(v.T, v.S); rf != "" && len(v.S) < 200 {
 		x.sc.assert(rf)
 	}
-	if _, ok := types.Unalias(v.T).Underlying().(*types.Slice); ok && len(v.S) < 200 {
+	if _, ok := under(v.T).(*types.Slice); ok && len(v.S) < 200 {
 		x.sc.assert(app("wfSlice", v.S))
 	}
 }
@@ -306,7 +306,7 @@ func (x *Exec) storeVal(st *State, addr Val, v Val, reach Term, pos token.Pos) {
 		x.storeLoc(st, l, v.S)
 		return
 	}
-	pt := types.Unalias(addr.T).Underlying().(*types.Pointer)
+	pt := under(addr.T).(*types.Pointer)
 	si := x.so.structOf(pt.Elem())
 	for i := range si.Fields {
 		key, srt := x.fieldKey(si, i)
@@ -335,7 +335,7 @@ func (x *Exec) unop(fr *Frame, t *ssa.UnOp, st *State, reach Term) Val {
 	case token.SUB:
 		return Val{T: t.Type(), S: x.wrap(t.Type(), "(- "+v.S+")")}
 	case token.XOR:
-		b := types.Unalias(t.Type()).Underlying().(*types.Basic)
+		b := under(t.Type()).(*types.Basic)
 		bits, signed := intBits(b)
 		if signed {
 			return Val{T: t.Type(), S: "(- (- " + v.S + ") 1)"}
@@ -371,7 +371,7 @@ func (x *Exec) binop(fr *Frame, t *ssa.BinOp, reach Term) Val {
 	case token.GEQ:
 		return cmp(">=")
 	}
-	bt, _ := types.Unalias(rt).Underlying().(*types.Basic)
+	bt, _ := under(rt).(*types.Basic)
 	if bt != nil && bt.Info()&types.IsString != 0 {
 		if t.Op == token.ADD {
 			x.sc.declFun("strcat", []string{"Str", "Str"}, "Str")
@@ -529,8 +529,8 @@ func (x *Exec) equal(a, b Val) Term {
 }
 
 func (x *Exec) convert(v Val, to types.Type) Val {
-	from := types.Unalias(v.T).Underlying()
-	tu := types.Unalias(to).Underlying()
+	from := under(v.T)
+	tu := under(to)
 	fb, fok := from.(*types.Basic)
 	tb, tok := tu.(*types.Basic)
 	if fok && tok && fb.Info()&types.IsInteger != 0 && tb.Info()&types.IsInteger != 0 {
@@ -614,7 +614,7 @@ func (x *Exec) unpayload(p Term, t types.Type) Term {
 
 func (x *Exec) typeAssert(fr *Frame, t *ssa.TypeAssert, reach Term) Val {
 	v := x.val(fr, t.X)
-	if _, isIface := types.Unalias(t.AssertedType).Underlying().(*types.Interface); isIface {
+	if _, isIface := under(t.AssertedType).(*types.Interface); isIface {
 		// interface-to-interface: identity, ok = non-nil
 		if t.CommaOk {
 			return Val{T: t.Type(), Tup: []Val{{T: t.AssertedType, S: v.S}, {T: types.Typ[types.Bool], S: not(eq(app("i_tag", v.S), "0"))}}}
@@ -643,7 +643,7 @@ func (x *Exec) sliceOp(fr *Frame, t *ssa.Slice, st *State, reach Term) Val {
 	if t.Max != nil {
 		x.fail("3-index slice")
 	}
-	switch bt := types.Unalias(base.T).Underlying().(type) {
+	switch bt := under(base.T).(type) {
 	case *types.Slice:
 		if hi == "" {
 			hi = app("s_len", base.S)
@@ -652,7 +652,7 @@ func (x *Exec) sliceOp(fr *Frame, t *ssa.Slice, st *State, reach Term) Val {
 		return Val{T: t.Type(), S: x.name("sl", "Slice", fmt.Sprintf("(mk_slice %s (+ %s %s) (- %s %s) (- %s %s))",
 			app("s_reg", base.S), app("s_off", base.S), lo, hi, lo, app("s_cap", base.S), lo))}
 	case *types.Pointer:
-		at, ok := types.Unalias(bt.Elem()).Underlying().(*types.Array)
+		at, ok := under(bt.Elem()).(*types.Array)
 		if !ok || base.L == nil {
 			x.fail("Slice on %s", base.T)
 		}
@@ -703,13 +703,13 @@ func (x *Exec) emptySet(mt *types.Map) Term {
 }
 
 func (x *Exec) mapDom(st *State, m Val) Term {
-	mt := types.Unalias(m.T).Underlying().(*types.Map)
+	mt := under(m.T).(*types.Map)
 	dk, ds, _, _ := x.mapKeys(mt)
 	return sel(x.heapGet(st, dk, ds), m.S)
 }
 
 func (x *Exec) mapLen(st *State, m Val) Term {
-	mt := types.Unalias(m.T).Underlying().(*types.Map)
+	mt := under(m.T).(*types.Map)
 	ks := x.so.sortOf(mt.Key())
 	d := x.mapDom(st, m)
 	c := app("card_"+sanitize(ks), d)
@@ -728,7 +728,7 @@ func (x *Exec) mapUpdate(fr *Frame, t *ssa.MapUpdate, st *State, reach Term) {
 	m := x.val(fr, t.Map)
 	k := x.val(fr, t.Key)
 	v := x.val(fr, t.Value)
-	mt := types.Unalias(m.T).Underlying().(*types.Map)
+	mt := under(m.T).(*types.Map)
 	dk, ds, vk, vs := x.mapKeys(mt)
 	x.oblige("panic", "nilmap", implies(reach, not(eq(m.S, "0"))), t.Pos(), "write to nil map")
 	h := x.heapGet(st, dk, ds)
@@ -745,7 +745,7 @@ func (x *Exec) mapUpdate(fr *Frame, t *ssa.MapUpdate, st *State, reach Term) {
 }
 
 func (x *Exec) mapDelete(st *State, m Val, k Val) {
-	mt := types.Unalias(m.T).Underlying().(*types.Map)
+	mt := under(m.T).(*types.Map)
 	dk, ds, _, _ := x.mapKeys(mt)
 	h := x.heapGet(st, dk, ds)
 	oldDom := sel(h, m.S)
@@ -759,7 +759,7 @@ func (x *Exec) mapDelete(st *State, m Val, k Val) {
 func (x *Exec) lookup(fr *Frame, t *ssa.Lookup, st *State, reach Term) Val {
 	m := x.val(fr, t.X)
 	k := x.val(fr, t.Index)
-	mt, ok := types.Unalias(m.T).Underlying().(*types.Map)
+	mt, ok := under(m.T).(*types.Map)
 	if !ok {
 		x.fail("Lookup on %s", m.T)
 	}
@@ -786,7 +786,7 @@ type rangeState struct {
 
 func (x *Exec) rangeInit(fr *Frame, t *ssa.Range, st *State) Val {
 	m := x.val(fr, t.X)
-	mt, ok := types.Unalias(m.T).Underlying().(*types.Map)
+	mt, ok := under(m.T).(*types.Map)
 	if !ok {
 		x.fail("range over %s", m.T)
 	}
@@ -808,7 +808,7 @@ func (x *Exec) rangeNext(fr *Frame, t *ssa.Next, st *State, reach Term) Val {
 	if rs == nil {
 		x.fail("next before range")
 	}
-	mt := types.Unalias(rs.m.T).Underlying().(*types.Map)
+	mt := under(rs.m.T).(*types.Map)
 	dom := x.mapDom(st, rs.m)
 	vis := st.cells[rs.visited]
 	okc := x.sc.freshConst("rng_ok", "Bool")
